@@ -66,4 +66,50 @@ theorem liveOK_regrow {s : State} (hl : Mem.LiveOK cfg s) (hd : Mem.ChunksDisjoi
   obtain ⟨k1, k2, k3⟩ := key
   exact ⟨k1, placed_congr (s := { setPos s i np with live := s.live.filter (fun x => x.id != blk.id) }) rfl rfl k2, k3⟩
 
+/-! ## the post-condition of `grow` in the live-block world -/
+
+/-- what `grow` of the live block `blk` to layout `L`, ending in `s'` with result `r`, establishes -/
+structure GrowPost (cfg : Cfg) (s s' : State) (blk : Block) (L : Layout) (r : Except AErr Nat) : Prop where
+  stable : Stable s s'
+  curKind : s'.cur = s.cur ∨ ∃ j, s'.cur = .chunk j
+  unalloc : s'.cur = .unallocated → s.cur = .unallocated ∧ SameShape s s'
+  /-- a refused request: every live block (also `blk`) stays fine -/
+  err : ∀ e, r = .error e → Mem.LiveOK cfg s'
+  /-- success: the new block is aligned, placed, and disjoint from every live block but `blk` -/
+  ok : ∀ np, r = .ok np → L.align ∣ np ∧ (∃ j, s'.cur = .chunk j) ∧ Mem.LiveOK cfg (removeBlock s' blk.id) ∧
+    (0 < L.size → Mem.Placed cfg s' np L.size) ∧
+    ∀ x ∈ (removeBlock s' blk.id).live, Mem.RangesDisjoint x.addr x.size np L.size
+
+/-- the `moveTo` continuation of `grow` after an allocation path -/
+theorem moveTo_hist {s s1 s' : State} (hl : Mem.LiveOK cfg s) {blk : Block} {L : Layout}
+    {r1' : Except AErr (Nat × Nat)} {r1 r : Except AErr Nat} (p : AllocPost cfg .alloc L s s1 r1')
+    (hr1 : r1 = r1'.map (·.1))
+    (he : (match (s1, r1) with
+      | (s', Except.error e) => (pure (s', Except.error e) : R (State × Except AErr Nat))
+      | (s', Except.ok np) => do
+        let s'' ← copyBytes cfg s' blk.addr np blk.size true
+        pure (s'', Except.ok np)) = .ok (s', r)) : GrowPost cfg s s' blk L r := by
+  cases r1' with
+  | error e =>
+    simp only [Except.map] at hr1
+    subst hr1
+    cases he
+    exact ⟨p.stable, p.curKind, p.unalloc, fun _ _ => p.live hl, fun np hnp => by cases hnp⟩
+  | ok v =>
+    simp only [Except.map] at hr1
+    subst hr1
+    obtain ⟨s2, h1, h2⟩ := bind_eq_ok he
+    cases h2
+    have ho := Mem.copyBytes_onlyData h1
+    have hcur2 : s'.cur = s1.cur := by rw [ho.1]
+    obtain ⟨j, hj⟩ := p.cur_ok v rfl
+    have out : Mem.AllocOutcome cfg s' v.1 L.size := (p.outcome rfl v rfl hl).of_onlyData ho
+    refine ⟨p.stable.trans (Stable.of_onlyData ho), Or.inr ⟨j, hcur2.trans hj⟩, ?_, (fun e he' => by cases he'), ?_⟩
+    · intro hu
+      rw [hcur2, hj] at hu; cases hu
+    · intro np hnp
+      cases hnp
+      exact ⟨p.found v rfl, ⟨j, hcur2.trans hj⟩, out.live.removeBlock _, fun _ => out.placed,
+        fun x hx => out.disj x (mem_filter_sub hx)⟩
+
 end Arena.Hist
